@@ -28,6 +28,7 @@ FIXED = {  # subject prefix (without "fix: ") -> property
  "a function or instance named like a used type": "C01",
  "an explicit import that cannot be merged with an implicit import": "C01",
  "a merged interface is named for the highest version": "C03",
+ "a used interface without an id is aliased": "C08",
 }
 out = []
 log = subprocess.run(["git", "-C", "/repo", "log", "--reverse", "--format=%h%x00%s%x00%b%x01", BASE + "..HEAD"],
